@@ -1,7 +1,328 @@
 package main
 
-// Extra obligation generators (language inclusion, SMT lemma files).
+// Extra obligation generators: regular-language inclusion between a specified language and
+// the language of regexp literals extracted from the real code.
+
+import (
+	"fmt"
+	"go/ast"
+	"go/constant"
+	"go/token"
+	"os"
+	"path/filepath"
+	"regexp/syntax"
+	"sort"
+	"strings"
+	"unicode/utf8"
+)
 
 func runExtra(p *Prog, spec string) ([]*Obligation, []string) {
+	if strings.HasPrefix(spec, "regexincl:") {
+		return regexInclusion(p, filepath.Join(verifDir(), "specs", strings.TrimPrefix(spec, "regexincl:")))
+	}
 	return nil, []string{"unknown extra engine " + spec}
+}
+
+func smtChar(r rune) string {
+	if r == '"' {
+		return `""""`
+	}
+	if r < 0x20 || r > 0x7e || r == '\\' {
+		return fmt.Sprintf(`"\u{%x}"`, r)
+	}
+	return `"` + string(r) + `"`
+}
+
+func smtStr(s string) string {
+	var b strings.Builder
+	b.WriteByte('"')
+	for _, r := range s {
+		switch {
+		case r == '"':
+			b.WriteString(`""`)
+		case r < 0x20 || r > 0x7e || r == '\\':
+			fmt.Fprintf(&b, `\u{%x}`, r)
+		default:
+			b.WriteRune(r)
+		}
+	}
+	b.WriteByte('"')
+	return b.String()
+}
+
+// reToSMT converts a parsed Go regexp (anchors handled by the caller) to an SMT-LIB RegLan term.
+func reToSMT(re *syntax.Regexp) (string, error) {
+	switch re.Op {
+	case syntax.OpEmptyMatch:
+		return `(str.to_re "")`, nil
+	case syntax.OpLiteral:
+		var parts []string
+		for _, r := range re.Rune {
+			if re.Flags&syntax.FoldCase != 0 {
+				set := map[rune]bool{r: true}
+				for f := simpleFold(r); f != r; f = simpleFold(f) {
+					set[f] = true
+				}
+				var alts []string
+				var rs []rune
+				for x := range set {
+					rs = append(rs, x)
+				}
+				sort.Slice(rs, func(i, j int) bool { return rs[i] < rs[j] })
+				for _, x := range rs {
+					alts = append(alts, "(str.to_re "+smtChar(x)+")")
+				}
+				if len(alts) == 1 {
+					parts = append(parts, alts[0])
+				} else {
+					parts = append(parts, "(re.union "+strings.Join(alts, " ")+")")
+				}
+			} else {
+				parts = append(parts, "(str.to_re "+smtChar(r)+")")
+			}
+		}
+		if len(parts) == 1 {
+			return parts[0], nil
+		}
+		return "(re.++ " + strings.Join(parts, " ") + ")", nil
+	case syntax.OpCharClass:
+		var alts []string
+		for i := 0; i+1 < len(re.Rune); i += 2 {
+			lo, hi := re.Rune[i], re.Rune[i+1]
+			if hi > 0x2ffff {
+				hi = 0x2ffff // SMT-LIB strings: code points up to 0x2FFFF
+			}
+			if lo > hi {
+				continue
+			}
+			if lo == hi {
+				alts = append(alts, "(str.to_re "+smtChar(lo)+")")
+			} else {
+				alts = append(alts, "(re.range "+smtChar(lo)+" "+smtChar(hi)+")")
+			}
+		}
+		if len(alts) == 0 {
+			return "re.none", nil
+		}
+		if len(alts) == 1 {
+			return alts[0], nil
+		}
+		return "(re.union " + strings.Join(alts, " ") + ")", nil
+	case syntax.OpAnyChar:
+		return "re.allchar", nil
+	case syntax.OpAnyCharNotNL:
+		return `(re.diff re.allchar (str.to_re "\u{a}"))`, nil
+	case syntax.OpCapture:
+		return reToSMT(re.Sub[0])
+	case syntax.OpStar, syntax.OpPlus, syntax.OpQuest:
+		s, err := reToSMT(re.Sub[0])
+		if err != nil {
+			return "", err
+		}
+		op := map[syntax.Op]string{syntax.OpStar: "re.*", syntax.OpPlus: "re.+", syntax.OpQuest: "re.opt"}[re.Op]
+		return "(" + op + " " + s + ")", nil
+	case syntax.OpRepeat:
+		s, err := reToSMT(re.Sub[0])
+		if err != nil {
+			return "", err
+		}
+		if re.Max < 0 {
+			return fmt.Sprintf("(re.++ ((_ re.^ %d) %s) (re.* %s))", re.Min, s, s), nil
+		}
+		return fmt.Sprintf("((_ re.loop %d %d) %s)", re.Min, re.Max, s), nil
+	case syntax.OpConcat, syntax.OpAlternate:
+		var parts []string
+		for _, sub := range re.Sub {
+			s, err := reToSMT(sub)
+			if err != nil {
+				return "", err
+			}
+			parts = append(parts, s)
+		}
+		op := "re.++"
+		if re.Op == syntax.OpAlternate {
+			op = "re.union"
+		}
+		if len(parts) == 1 {
+			return parts[0], nil
+		}
+		return "(" + op + " " + strings.Join(parts, " ") + ")", nil
+	}
+	return "", fmt.Errorf("unsupported regexp operator %v in %q", re.Op, re.String())
+}
+
+func simpleFold(r rune) rune {
+	// ASCII letters only need the classic fold; others via unicode.SimpleFold semantics
+	if r >= 'a' && r <= 'z' {
+		return r - 32
+	}
+	if r >= 'A' && r <= 'Z' {
+		return r + 32
+	}
+	return r
+}
+
+// goRegexLanguage: the set of strings a Go regexp MatchString accepts, as RegLan.
+// fullMatch: the pattern must describe the whole string (used for specification languages).
+func goRegexLanguage(pat string, fullMatch bool) (string, error) {
+	re, err := syntax.Parse(pat, syntax.Perl)
+	if err != nil {
+		return "", err
+	}
+	re = re.Simplify()
+	beginAnchored, endAnchored := false, false
+	if re.Op == syntax.OpConcat && len(re.Sub) > 0 {
+		if re.Sub[0].Op == syntax.OpBeginText || re.Sub[0].Op == syntax.OpBeginLine {
+			beginAnchored = true
+			re.Sub = re.Sub[1:]
+		}
+		if n := len(re.Sub); n > 0 && (re.Sub[n-1].Op == syntax.OpEndText || re.Sub[n-1].Op == syntax.OpEndLine) {
+			endAnchored = true
+			re.Sub = re.Sub[:n-1]
+		}
+		if len(re.Sub) == 0 {
+			re = &syntax.Regexp{Op: syntax.OpEmptyMatch}
+		}
+	}
+	body, err := reToSMT(re)
+	if err != nil {
+		return "", err
+	}
+	if fullMatch {
+		return body, nil
+	}
+	out := body
+	if !beginAnchored {
+		out = "(re.++ re.all " + out + ")"
+	}
+	if !endAnchored {
+		out = "(re.++ " + out + " re.all)"
+	}
+	return out, nil
+}
+
+// regexInclusion reads a .lang file:
+//
+//	guard <pkgpath> <MapVar>            map[string]*regexp.Regexp literal in the real code
+//	lang <name> = <go regexp>            specification language (full match)
+//
+// and emits one obligation per lang: L(lang) ⊆ L(guard).
+func regexInclusion(p *Prog, file string) ([]*Obligation, []string) {
+	b, err := os.ReadFile(file)
+	if err != nil {
+		return nil, []string{err.Error()}
+	}
+	var errs []string
+	var guardPats []string
+	guardName := ""
+	type lang struct{ name, pat string }
+	var langs []lang
+	for _, line := range strings.Split(string(b), "\n") {
+		line = strings.TrimRight(line, "\r")
+		t := strings.TrimSpace(line)
+		if t == "" || strings.HasPrefix(t, "#") {
+			continue
+		}
+		switch {
+		case strings.HasPrefix(t, "guard "):
+			f := strings.Fields(t)
+			if len(f) != 3 {
+				errs = append(errs, "bad guard line: "+t)
+				continue
+			}
+			pats, err := extractRegexMap(p, normKey(f[1]), f[2])
+			if err != nil {
+				errs = append(errs, err.Error())
+				continue
+			}
+			guardPats = pats
+			guardName = f[1] + "." + f[2]
+		case strings.HasPrefix(t, "lang "):
+			r := strings.TrimPrefix(t, "lang ")
+			i := strings.Index(r, "=")
+			if i < 0 {
+				errs = append(errs, "bad lang line: "+t)
+				continue
+			}
+			langs = append(langs, lang{strings.TrimSpace(r[:i]), strings.TrimSpace(r[i+1:])})
+		default:
+			errs = append(errs, "unknown line in "+file+": "+t)
+		}
+	}
+	if len(guardPats) == 0 {
+		errs = append(errs, "no guard patterns extracted for "+file)
+		return nil, errs
+	}
+	var gl []string
+	for _, gp := range guardPats {
+		s, err := goRegexLanguage(gp, false)
+		if err != nil {
+			errs = append(errs, "guard pattern "+gp+": "+err.Error())
+			return nil, errs
+		}
+		gl = append(gl, s)
+	}
+	guard := gl[0]
+	if len(gl) > 1 {
+		guard = "(re.union " + strings.Join(gl, " ") + ")"
+	}
+	var obls []*Obligation
+	for _, l := range langs {
+		ls, err := goRegexLanguage(l.pat, true)
+		if err != nil {
+			errs = append(errs, "lang "+l.name+": "+err.Error())
+			continue
+		}
+		q := "(set-option :produce-models true)\n(set-logic ALL)\n(declare-const x String)\n" +
+			"(assert (str.in_re x " + ls + "))\n(assert (not (str.in_re x " + guard + ")))\n(check-sat)\n(get-model)\n"
+		obls = append(obls, &Obligation{
+			Name: guardName + "#incl[" + l.name + "]", Kind: "language-inclusion", Src: "L(" + l.pat + ") ⊆ L(" + strings.Join(guardPats, " | ") + ")",
+			RawQuery: q, PC: TTrue, Goal: Term{"(str.in_re x guard)", SBool}, Pos: file,
+		})
+	}
+	return obls, errs
+}
+
+// extractRegexMap returns the regexp literals of a package-level map literal
+// map[string]*regexp.Regexp{ k: regexp.MustCompile(`...`), ... } in the loaded real code.
+func extractRegexMap(p *Prog, pkgPath, name string) ([]string, error) {
+	pk := p.Pkgs[pkgPath]
+	if pk == nil {
+		return nil, fmt.Errorf("package %s not loaded", pkgPath)
+	}
+	var pats []string
+	for _, f := range pk.Syntax {
+		for _, d := range f.Decls {
+			gd, ok := d.(*ast.GenDecl)
+			if !ok || gd.Tok != token.VAR {
+				continue
+			}
+			for _, sp := range gd.Specs {
+				vs := sp.(*ast.ValueSpec)
+				for i, nm := range vs.Names {
+					if nm.Name != name || i >= len(vs.Values) {
+						continue
+					}
+					ast.Inspect(vs.Values[i], func(n ast.Node) bool {
+						call, ok := n.(*ast.CallExpr)
+						if !ok || len(call.Args) != 1 {
+							return true
+						}
+						if fn := staticCallee(pk.TypesInfo, call); fn != nil && fn.Pkg() != nil && fn.Pkg().Path() == "regexp" && (fn.Name() == "MustCompile" || fn.Name() == "Compile") {
+							if tv, ok := pk.TypesInfo.Types[call.Args[0]]; ok && tv.Value != nil && tv.Value.Kind() == constant.String {
+								pats = append(pats, constant.StringVal(tv.Value))
+							}
+						}
+						return true
+					})
+				}
+			}
+		}
+	}
+	if len(pats) == 0 {
+		return nil, fmt.Errorf("no regexp literals found in %s.%s", pkgPath, name)
+	}
+	sort.Strings(pats)
+	_ = utf8.RuneError
+	return pats, nil
 }
